@@ -2,6 +2,7 @@ package c18
 
 import (
 	"fmt"
+	"os"
 	"sort"
 	"strconv"
 	"strings"
@@ -324,11 +325,12 @@ func (mc *machine) run(rt *rapid.T, q string, o outcome) {
 		return
 	}
 	if mc.rebuildAfterFailure {
-		// second region of the same finding: while the children of a row are being visited,
-		// a nested lookup on the same table (self-referencing constraint) applies the pending
-		// edits and shifts the shared index rows under the open iterator, so further children
-		// are skipped. Statements whose referential actions touch two or more rows of a
-		// self-referencing table are not executed while the finding is listed.
+		// second region of the same finding: while the rows of a statement (or the children of
+		// a row) are being visited, a nested lookup on the same table (self-referencing
+		// constraint) applies the pending edits and shifts the shared index rows / row slots
+		// under the open iterator, so further rows are skipped. Statements that delete or
+		// rewrite two or more rows of a self-referencing table (directly or through
+		// referential actions) are not executed while the finding is listed.
 		for _, f := range mc.sc.fks {
 			if f.active && f.self() && o.actionRows[f.child] >= 2 {
 				mc.st.Excluded(findingSharedIdx + ":selfref-multi-child")
@@ -428,15 +430,39 @@ func smallVal(rt *rapid.T, label string) int64 {
 
 // genRow draws the values of a new row of table t: foreign key columns mostly reference
 // existing parent keys, sometimes NULL, sometimes an arbitrary (possibly missing) key.
-func (mc *machine) genRow(rt *rapid.T, t int) []int64 {
+func (mc *machine) genRow(rt *rapid.T, t int, pending [][]int64) []int64 {
 	td := mc.sc.tables[t]
 	v := make([]int64, len(td.cols))
+	// values already taken (table contents and the rows drawn earlier for this statement)
+	taken := func(col int, x int64) bool {
+		for _, r := range mc.m.rows[t] {
+			if r.v[col] == x {
+				return true
+			}
+		}
+		for _, r := range pending {
+			if r[col] == x {
+				return true
+			}
+		}
+		return false
+	}
+	// mostly fresh values for unique columns (a duplicate fails the whole plain INSERT)
+	fresh := func(col int, label string) int64 {
+		x := smallVal(rt, label)
+		if rapid.IntRange(0, 9).Draw(rt, label+"MayCollide") > 0 {
+			for k := int64(0); k < 8 && taken(col, x); k++ {
+				x = x%8 + 1
+			}
+		}
+		return x
+	}
 	for i, c := range td.cols {
 		switch c.name {
 		case "id":
-			v[i] = smallVal(rt, "id")
+			v[i] = fresh(i, "id")
 		case "u":
-			v[i] = smallVal(rt, "u")
+			v[i] = fresh(i, "u")
 			if rapid.IntRange(0, 4).Draw(rt, "uNull") == 0 {
 				v[i] = null
 			}
@@ -447,11 +473,34 @@ func (mc *machine) genRow(rt *rapid.T, t int) []int64 {
 			}
 		}
 	}
+	// avoid most (a,b) collisions
+	for _, uk := range td.uniques {
+		if len(uk) == 2 && rapid.IntRange(0, 9).Draw(rt, "abMayCollide") > 0 {
+			for k := 0; k < 9; k++ {
+				hit := false
+				for _, r := range mc.m.rows[t] {
+					hit = hit || (r.v[uk[0]] == v[uk[0]] && r.v[uk[1]] == v[uk[1]] && v[uk[0]] != null && v[uk[1]] != null)
+				}
+				for _, r := range pending {
+					hit = hit || (r[uk[0]] == v[uk[0]] && r[uk[1]] == v[uk[1]] && v[uk[0]] != null && v[uk[1]] != null)
+				}
+				if !hit {
+					break
+				}
+				v[uk[0]] = int64(k/3 + 1)
+				v[uk[1]] = int64(k%3 + 1)
+			}
+		}
+	}
 	for _, f := range mc.sc.fks {
 		if f.child != t {
 			continue
 		}
 		mc.genChildKey(rt, f, v)
+		if len(f.cols) == 1 && td.cols[f.cols[0]].name == "u" && v[f.cols[0]] != null && taken(f.cols[0], v[f.cols[0]]) && rapid.IntRange(0, 9).Draw(rt, "chainMayCollide") > 0 {
+			// key-chain column (unique and a child key): prefer NULL to a duplicate
+			v[f.cols[0]] = null
+		}
 	}
 	return v
 }
@@ -462,12 +511,12 @@ func (mc *machine) genChildKey(rt *rapid.T, f *fkDef, v []int64) {
 	ex := mc.existingKeys(f.parent, f.pcols)
 	kind := rapid.IntRange(0, 9).Draw(rt, "fkKind")
 	switch {
-	case kind <= 6 && len(ex) > 0:
+	case kind <= 7 && len(ex) > 0:
 		k := rapid.SampledFrom(ex).Draw(rt, "parentKey")
 		for i, c := range f.cols {
 			v[c] = k[i]
 		}
-	case kind <= 8 && kind >= 7 && !td.cols[f.cols[0]].notNull:
+	case kind == 8 && !td.cols[f.cols[0]].notNull:
 		// NULL in one or all parts
 		which := rapid.IntRange(0, len(f.cols)).Draw(rt, "nullPart")
 		for i, c := range f.cols {
@@ -507,7 +556,7 @@ func (mc *machine) insertInto(rt *rapid.T, t, nrows int) {
 	var rows [][]int64
 	var tuples []string
 	for i := 0; i < nrows; i++ {
-		v := mc.genRow(rt, t)
+		v := mc.genRow(rt, t, rows)
 		if i > 0 && rapid.IntRange(0, 3).Draw(rt, "refPrev") == 0 {
 			// reference a row inserted earlier in the same statement (self reference by id)
 			for _, f := range mc.sc.fks {
@@ -1030,6 +1079,9 @@ func TestC18(t *testing.T) {
 			"addFK2":      mc.addFK,
 			"":            mc.invariant,
 		})
+		if os.Getenv("C18_DUMP") != "" {
+			fmt.Println(mc.history())
+		}
 		if mc.sawDeep || mc.sawSelf || mc.sawReject {
 			n := len(mc.log)
 			if n > 12 {
